@@ -271,7 +271,10 @@ func (db *DB) Session(config *Session) *DB {
 		} else {
 			simhook.Yield("session:prepared-stmt-miss")
 			preparedStmt = NewPreparedStmtDB(db.ConnPool)
-			db.cacheStore.Store(preparedStmtDBKey, preparedStmt)
+			// another goroutine may have stored its cache since the Load above: share that one
+			if v, loaded := db.cacheStore.LoadOrStore(preparedStmtDBKey, preparedStmt); loaded {
+				preparedStmt = v.(*PreparedStmtDB)
+			}
 		}
 
 		switch t := tx.Statement.ConnPool.(type) {
